@@ -189,6 +189,35 @@ def compile_leg(stims: list[dict], obs: list[dict], run) -> None:
     run.cov["compile_leg"] = stat
 
 
+REBOUND = "device-name-rebound-to-same-class"
+
+
+def rebound_probe(run) -> None:
+    """Probe of the known finding: ONE identifier bound first to a parallel LCD, then to an I2C LCD (both are `LCD` objects).
+    Recorded signature: both libraries requested, only the first display's header included and class instantiated - anything
+    else that `Libs` rejects is a violation of its own; a conforming observation means the finding is gone."""
+    src = "\n".join(L.HEADER + ["unit = LCD(rs=2, en=3, d4=4, d5=5, d6=6, d7=7)", 'unit.write(0, 0, "p")', "unit = LCD(i2c_addr=0x27, cols=16, rows=2)",
+                                'unit.write(0, 1, "i")', "while True:", "    sleep(5)"]) + "\n"
+    o = L.observe(src)
+    run.count("probe:" + REBOUND)
+    if o["status"] != "accept":
+        return                                     # refusing the script is allowed
+    decls = [{"kind": "lcdp", "place": "pre"}, {"kind": "lcdi", "place": "pre"}]
+    v = validate("LibsTrace", "INIT TInit\nNEXT TNext\n" + TRACE_CONSTS + "CONSTRAINT Verdict\nINVARIANT AcceptedStateAgrees\nCHECK_DEADLOCK FALSE\n",
+                 [L.libs_trace("rebound", decls, o)], run, label="Libs probe (identifier re-bound)")["rebound"]
+    if v["ok"]:
+        return
+    heads = sorted(h for h in o["incl"] if h.startswith("LiquidCrystal"))
+    objs = sorted({c for c, _n in o["inst"] if c.startswith("LiquidCrystal")})
+    rep = {"leg": "libs", "script": src, "observed": _short(o), "verdict": v}
+    if (v["clause"] == "needed-header-not-included" and sorted(o["libs"]) == ["LiquidCrystal", "LiquidCrystal_I2C"]
+            and heads == ["LiquidCrystal.h"] and objs == ["LiquidCrystal"]):
+        run.violation("one identifier re-bound from a parallel LCD to an I2C LCD: both libraries are requested, only the first display is set up "
+                      f"(lib_deps={o['libs']} includes={heads} objects={objs})", rep, finding=REBOUND)
+    else:
+        run.violation(f"identifier re-bound to a second LCD: lib_deps / #includes / library objects disagree ({v['clause']}): {_short(o)}", rep)
+
+
 def check(run) -> None:
     quick = run.tier == "quick"
     run.cov["rule"] = ("a case = one TLC-generated device multiset (servos 0..2 split over before-loop / top-of-loop-body, parallel LCDs 0..2, "
@@ -225,6 +254,7 @@ def check(run) -> None:
         sketch_sel = set(range(len(allst))) - set(rest) | set(random.Random(run.seed).sample(rest, min(len(rest), 8000)))
         run.cov["sketch_leg_scripts"] = len(sketch_sel)
     allobs = run_stratum(allst, run, "clean+probe" if probing else "clean", probes=is_probe, sketch_sel=sketch_sel)
+    rebound_probe(run)
     stims = [s for s, pr in zip(allst, is_probe) if not pr]
     obs = [o for o, pr in zip(allobs, is_probe) if not pr]
     run.cov["clean_scripts"] = len(stims)
